@@ -51,7 +51,7 @@ func init() {
 		run: func(c *Ctx, tier string) []*RuleResult {
 			cl := &RuleResult{Rule: "CLOSE", Doc: "AllMaximalCliques: every path to return passes through close(c); no send reachable after close", MinInst: 1}
 			ruleClose(c, cl, "graph.AllMaximalCliques", "c")
-			return []*RuleResult{ruleGlobal(c), ruleNoShare(c), ruleReadonly(c, c19Observers, tier), ruleRetain(c, c19Ctors(c), c19Retain), cl}
+			return []*RuleResult{ruleGlobal(c), ruleNoShare(c), ruleReadonly(c, c19Observers, tier), ruleRetain(c, c19Ctors(c), c19Retain), cl, ruleRetainHelpers(c), ruleCtorArgs(c)}
 		},
 		controls: func(ctl *Ctx) []*RuleResult {
 			ro := &RuleResult{Rule: "READONLY"}
@@ -66,7 +66,7 @@ func init() {
 			cl2 := &RuleResult{Rule: "CLOSE"}
 			ruleClose(ctl, cl2, "effctl.BadSendAfterClose", "c")
 			rt := ruleRetain(ctl, []string{"effctl.NewKeeper", "effctl.NewGoodKeeper", "effctl.BadUnlistedKeeper"}, []retainSpec{{ctor: "effctl.NewKeeper", param: "k", typ: "effctl.T", field: "kept"}})
-			return []*RuleResult{ruleGlobal(ctl), ruleNoShare(ctl), ro, mv, cl, cl2, rt}
+			return []*RuleResult{ruleGlobal(ctl), ruleNoShare(ctl), ro, mv, cl, cl2, rt, ruleRetainHelpers(ctl), ruleCtorArgs(ctl)}
 		},
 	})
 }
@@ -111,3 +111,119 @@ var c19Retain = []retainSpec{
 }
 
 var _ ssa.Value
+
+// ruleRetainHelpers: an unexported function whose result keeps memory of a parameter (it adopts the
+// slices it is given as the storage of the value it builds) is only sound if every caller hands it
+// memory nobody else holds: a fresh allocation, not a window of a longer-lived array and not
+// something read back from elsewhere. (Exported functions that keep caller memory are listed and
+// judged by RETAIN.)
+func ruleRetainHelpers(c *Ctx) *RuleResult {
+	r := &RuleResult{Rule: "ADOPT", Doc: "an unexported helper that adopts its slice arguments as the storage of the value it returns is only called with freshly allocated, unshared slices", MinInst: 0}
+	E := c.Eff()
+	owned := func(v ssa.Value) bool {
+		for {
+			switch x := v.(type) {
+			case *ssa.MakeSlice:
+				return true
+			case *ssa.ChangeType:
+				v = x.X
+				continue
+			case *ssa.Slice:
+				if al, ok := x.X.(*ssa.Alloc); ok && x.Low == nil {
+					// the whole of an array allocated for it: make([]T, const) and slice literals
+					arr, isArr := al.Type().Underlying().(*types.Pointer).Elem().Underlying().(*types.Array)
+					if x.High == nil {
+						return true
+					}
+					if k, isK := constInt(x.High); isK && isArr && k == arr.Len() {
+						return true
+					}
+				}
+				return false
+			case *ssa.Const:
+				return x.Value == nil // nil slice
+			}
+			return false
+		}
+	}
+	n := 0
+	for _, fn := range c.Funcs {
+		if fn.Synthetic != "" || fn.Parent() != nil || fn.Object() == nil || fn.Object().Exported() || fn.Blocks == nil {
+			continue
+		}
+		kept := map[int]string{}
+		for i := 0; i < fn.Signature.Results().Len(); i++ {
+			t := fn.Signature.Results().At(i).Type()
+			if p, ok := t.Underlying().(*types.Pointer); ok {
+				t = p.Elem()
+			}
+			if _, isStruct := t.Underlying().(*types.Struct); !isStruct {
+				continue
+			}
+			for k, path := range E.RetReach(fn, i) {
+				if k < 0 || k >= len(fn.Params) {
+					continue
+				}
+				if _, isSl := fn.Params[k].Type().Underlying().(*types.Slice); isSl {
+					kept[k] = path
+				}
+			}
+		}
+		if len(kept) == 0 {
+			continue
+		}
+		for _, caller := range c.Funcs {
+			for _, b := range caller.Blocks {
+				for _, in := range b.Instrs {
+					call, ok := in.(*ssa.Call)
+					if !ok || call.Call.StaticCallee() != fn {
+						continue
+					}
+					for k, path := range kept {
+						if k >= len(call.Call.Args) {
+							continue
+						}
+						a := call.Call.Args[k]
+						n++
+						r.inst("%s: %s adopts %s (%s); argument %s", c.short(caller), c.short(fn), fn.Params[k].Name(), path, valName(a))
+						// the caller's own parameter passed through: the caller is then judged in its turn
+						if _, isParam := a.(*ssa.Parameter); isParam {
+							r.oblig(true)
+							continue
+						}
+						ok2 := owned(a)
+						r.oblig(ok2)
+						if !ok2 {
+							r.find(c.short(caller)+":hands shared memory to "+c.short(fn), c.instrPos(call), "%s passes %s to %s, which keeps it as storage of the value it returns (%s); the argument is not a fresh allocation of its own (a window of a larger array, or memory read back from elsewhere), so values built this way share storage and an edit of one (AddVertex grows in place) changes another", c.short(caller), valName(a), c.short(fn), path)
+						}
+					}
+				}
+			}
+		}
+	}
+	r.inst("%d call sites of adopting helpers", n)
+	return r
+}
+
+// ruleCtorArgs: a constructor reads what it is given and writes only what it builds: it must not
+// write memory reachable from any of its arguments (sorting the caller's slice in place, trimming
+// it, ...). The caller may be sharing that slice, read-only, with other goroutines or values.
+func ruleCtorArgs(c *Ctx) *RuleResult {
+	names := c19Ctors(c)
+	r := &RuleResult{Rule: "CTOR-ARGS", Doc: "constructors (exported functions returning a struct, pointer to struct or interface value) write nothing reachable from their slice, pointer and map arguments", MinInst: 5}
+	for _, n := range names {
+		fn := c.Fn(n)
+		var idx []int
+		for i, p := range fn.Params {
+			switch p.Type().Underlying().(type) {
+			case *types.Slice, *types.Pointer, *types.Map:
+				idx = append(idx, i) // readers, writers and graphs (interfaces) are used through their methods; graph arguments are READONLY's
+			}
+		}
+		if len(idx) == 0 {
+			continue
+		}
+		noWrites(c, r, fn, idx, "its arguments")
+	}
+	return r
+}
